@@ -5,10 +5,13 @@
    For every well-formed trie (build_trie gives one) and every text: the tokens of Trie.tokenize are
    in text order, each starting after the end of the one before, each starts and ends on a piece
    boundary of the text, and every non-blank piece of the text lies inside exactly one of them.
-   The selection rules (leftmost longest kept, isolated kept, pair rule) are decided by the oracle
-   on all interval configurations up to a bound and by the correspondence; the theorem on the
-   filter alone keeps the suffix _partial for that reason. *)
-Require Import Model.Base Model.Split Model.Trie Model.Overlap Proofs.Overlap Proofs.Trie Proofs.Cover.
+   Selection rules, for any list of well-formed tokens (start <= end, as every reported match is):
+   a token survives the filter when every other token is apart from it or beaten by it (shorter, or
+   as long and starting later); hence the leftmost of the longest matches is kept, a match that
+   touches no other is kept, and of two matches that overlap only each other the longer (the earlier
+   on a tie) is kept and the other is not; a word that no kept match covers reappears as an unmatched
+   token of its own. *)
+Require Import Model.Base Model.Split Model.Trie Model.Overlap Proofs.Overlap Proofs.Trie Proofs.Cover Proofs.Select.
 
 Theorem C17_disjoint_partial : forall V (l : list (Trie.tok V)), chain_after (filter_overlapping l).
 Proof. intros V. exact (@fo_disjoint V). Qed.
@@ -49,6 +52,47 @@ Theorem C17_every_word_in_exactly_one_token : forall V O (tr : trie V), wf_trie 
                      (forall t', In t' (pre ++ post) -> ~ covers t' p).
 Proof. intros V O. exact (@tokenize_covers_once V O). Qed.
 Print Assumptions C17_every_word_in_exactly_one_token.
+
+Theorem C17_leftmost_longest_kept : forall V (x : Trie.tok V) l1 l2,
+  wf_tok x -> (forall y, In y (l1 ++ l2) -> wf_tok y) ->
+  (forall y, In y (l1 ++ l2) -> (tok_len y < tok_len x \/ (tok_len y = tok_len x /\ tstart x < tstart y))%Z) ->
+  In x (filter_overlapping (l1 ++ x :: l2)).
+Proof. intros V. exact (@fo_keeps_leftmost_longest V). Qed.
+Print Assumptions C17_leftmost_longest_kept.
+
+Theorem C17_isolated_kept : forall V (x : Trie.tok V) l1 l2,
+  wf_tok x -> (forall y, In y (l1 ++ l2) -> wf_tok y /\ apart x y) ->
+  In x (filter_overlapping (l1 ++ x :: l2)).
+Proof. intros V. exact (@fo_keeps_isolated V). Qed.
+Print Assumptions C17_isolated_kept.
+
+Theorem C17_pair_rule : forall V (x z : Trie.tok V) l1 l2 l3,
+  wf_tok x -> wf_tok z -> ~ apart x z ->
+  (tok_len z < tok_len x \/ (tok_len z = tok_len x /\ tstart x < tstart z))%Z ->
+  (forall y, In y (l1 ++ l2 ++ l3) -> wf_tok y /\ apart x y) ->
+  forall l, (l = l1 ++ x :: l2 ++ z :: l3 \/ l = l1 ++ z :: l2 ++ x :: l3) ->
+  In x (filter_overlapping l) /\
+  (forall i j, nth_error (filter_overlapping l) i = Some x -> nth_error (filter_overlapping l) j = Some z -> i = j).
+Proof. intros V. exact (@fo_pair_rule V). Qed.
+Print Assumptions C17_pair_rule.
+
+Theorem C17_general_survival : forall V (x : Trie.tok V) l1 l2,
+  wf_tok x -> (forall y, In y (l1 ++ l2) -> wf_tok y /\ (apart x y \/ beaten x y)) ->
+  In x (filter_overlapping (l1 ++ x :: l2)).
+Proof. intros V. exact (@fo_keeps V). Qed.
+Print Assumptions C17_general_survival.
+
+Theorem C17_reported_matches_are_wellformed : forall V O (tr : trie V), wf_trie tr -> forall text t,
+  In t (t_iter O tr text) -> wf_tok t.
+Proof. intros V O tr W text t H. exact (proj2 (proj2 (proj2 (Proofs.Recognise.match_inside O tr W text t H)))). Qed.
+Print Assumptions C17_reported_matches_are_wellformed.
+
+Theorem C17_uncovered_word_reappears_unmatched : forall V O (tr : trie V), wf_trie tr -> forall text p,
+  In p (pieces O text) -> is_word_piece O p = true ->
+  (forall t, In t (filter_overlapping (t_iter O tr text)) -> ~ covers t p) ->
+  In (unmatched p) (t_tokenize O tr text).
+Proof. intros V O. exact (@tokenize_unmatched_word V O). Qed.
+Print Assumptions C17_uncovered_word_reappears_unmatched.
 
 (* the premises are satisfiable and the statements say something: three overlapping names
    "a b" / "b c d" / "d e" and the text "x (a b c d e) y" with glued parentheses *)
